@@ -1562,6 +1562,10 @@ var sweepFuncs = [][2]string{
 	{"x/liquidationsV2/keeper", "LiquidateIndividualVault"}, {"x/liquidationsV2/keeper", "LiquidateIndividualBorrow"},
 	{"x/liquidationsV2/keeper", "LiquidateForSurplusAndDebt"},
 	{"x/auction/keeper", "SurplusActivator"}, {"x/auction/keeper", "DebtActivator"},
+	// the payout units of the rewards BeginBlocker (external reward programmes of lockers, vaults, lend positions); the fourth unit,
+	// DistributeExtRewardStableVault, has no control test at all (notes/C14.md, observation) and is therefore not listed
+	{"x/rewards/keeper", "DistributeExtRewardLocker"}, {"x/rewards/keeper", "DistributeExtRewardVault"},
+	{"x/rewards/keeper", "DistributeExtRewardLend"},
 }
 
 func polarity(c ast.Expr, pred func(ast.Expr) bool) string {
